@@ -20,6 +20,7 @@ import (
 	"fmt"
 	"net/http"
 	"net/http/httptest"
+	"log/slog"
 	"strconv"
 	"strings"
 	"sync"
@@ -100,7 +101,11 @@ func khRunSrvHTTP(t *testing.T, c *khCase) (obs string) {
 				return next(ctx, method, req)
 			}
 		})
-		handler := NewStreamableHTTPHandler(func(*http.Request) *Server { return server }, &StreamableHTTPOptions{DisableLocalhostProtection: true, Logger: kaLogger})
+		hopts := &StreamableHTTPOptions{DisableLocalhostProtection: true, Logger: kaLogger}
+		if c.mode == "store" {
+			hopts.EventStore = NewMemoryEventStore(nil)
+		}
+		handler := NewStreamableHTTPHandler(func(*http.Request) *Server { return server }, hopts)
 		sid := ""
 		post := func(body string) *httptest.ResponseRecorder {
 			req := httptest.NewRequest(http.MethodPost, "http://srv.example/mcp", strings.NewReader(body))
@@ -187,7 +192,7 @@ func khRunSrvHTTP(t *testing.T, c *khCase) (obs string) {
 		go func() { // the client's connectivity script
 			open := true
 			for k := 1; k <= len(c.wire)+1; k++ {
-				away := k <= len(c.wire) && c.wire[k-1].kind == 'R'
+				away := k <= len(c.wire) && (c.wire[k-1].kind == 'R' || c.wire[k-1].kind == 'G')
 				at := time.Duration(int64(k)*c.I - c.I/4)
 				select {
 				case <-time.After(time.Until(t0.Add(time.Duration(start) + at))):
@@ -235,3 +240,101 @@ func khRunSrvHTTP(t *testing.T, c *khCase) (obs string) {
 	})
 	return obs
 }
+
+// khRunStateless: `mode=stateless`. A stateless StreamableHTTPHandler serves every POST with a temporary session
+// (Server.Connect, so keep-alive is started); the POST is a tools/call whose handler runs until `tc`. That session
+// can make no requests: every keep-alive ping is refused by its transport, and after T of them keep-alive closes the
+// session under the running call (ServerSession.Close is graceful: it returns, and Wait with it, only when the
+// running handler is done; so "closed by keep-alive" is read off the loop's own ERROR record "closing session").
+// Observed: the ping attempts (relative to the session's Connect), the instant of that record.
+func khRunStateless(t *testing.T, c *khCase) (obs string) {
+	obs = "panic"
+	synctest.Test(t, func(t *testing.T) {
+		defer func() {
+			if r := recover(); r != nil {
+				obs = "panic"
+			}
+		}()
+		I := time.Duration(c.I)
+		t0 := time.Now()
+		var mu sync.Mutex
+		var attempts []int64
+		var ss *ServerSession
+		closedAt := int64(-1)
+		logger := slog.New(khLogTap(func(r slog.Record) {
+			if r.Level >= slog.LevelError && strings.Contains(r.Message, "closing session") {
+				mu.Lock()
+				if closedAt < 0 {
+					closedAt = time.Since(t0).Nanoseconds()
+				}
+				mu.Unlock()
+			}
+		}))
+		server := NewServer(&Implementation{Name: "s", Version: "1"}, &ServerOptions{KeepAlive: I, KeepAliveFailureThreshold: c.T, Logger: logger})
+		server.AddSendingMiddleware(func(next MethodHandler) MethodHandler {
+			return func(ctx context.Context, method string, req Request) (Result, error) {
+				if method == "ping" {
+					mu.Lock()
+					attempts = append(attempts, time.Since(t0).Nanoseconds())
+					mu.Unlock()
+				}
+				return next(ctx, method, req)
+			}
+		})
+		done := make(chan struct{})
+		defer close(done)
+		server.AddTool(&Tool{Name: "park", InputSchema: json.RawMessage(`{"type":"object"}`)}, func(ctx context.Context, req *CallToolRequest) (*CallToolResult, error) {
+			mu.Lock()
+			ss = req.Session
+			mu.Unlock()
+			select {
+			case <-time.After(time.Duration(c.tc)):
+			case <-ctx.Done():
+			case <-done:
+			}
+			return &CallToolResult{}, nil
+		})
+		handler := NewStreamableHTTPHandler(func(*http.Request) *Server { return server }, &StreamableHTTPOptions{Stateless: true, DisableLocalhostProtection: true, Logger: kaLogger})
+		req := httptest.NewRequest(http.MethodPost, "http://srv.example/mcp", strings.NewReader(`{"jsonrpc":"2.0","id":1,"method":"tools/call","params":{"name":"park","arguments":{}}}`))
+		req.Header.Set("Content-Type", "application/json")
+		req.Header.Set("Accept", "application/json, text/event-stream")
+		req.Header.Set("Mcp-Protocol-Version", c.pv)
+		rec := httptest.NewRecorder()
+		postDone := make(chan struct{})
+		go func() {
+			defer close(postDone)
+			defer func() { recover() }()
+			handler.ServeHTTP(rec, req)
+		}()
+		time.Sleep(time.Duration(c.tc) - 1)
+		synctest.Wait()
+		mu.Lock()
+		ca, before, sess := closedAt, len(attempts), ss
+		mu.Unlock()
+		if sess == nil {
+			obs = "connect-failed"
+			return
+		}
+		time.Sleep(1)
+		synctest.Wait()
+		<-postDone
+		time.Sleep(3 * I)
+		synctest.Wait()
+		mu.Lock()
+		defer mu.Unlock()
+		closed := "-"
+		if ca >= 0 {
+			closed = strconv.FormatInt(ca, 10)
+		}
+		obs = fmt.Sprintf("pings=%s to=- close=%s exit=1 late=%d", kaInts(attempts[:before]), closed, len(attempts)-before)
+	})
+	return obs
+}
+
+// khLogTap is a slog.Handler that hands every record to f.
+type khLogTap func(slog.Record)
+
+func (f khLogTap) Enabled(context.Context, slog.Level) bool        { return true }
+func (f khLogTap) Handle(_ context.Context, r slog.Record) error { f(r); return nil }
+func (f khLogTap) WithAttrs([]slog.Attr) slog.Handler             { return f }
+func (f khLogTap) WithGroup(string) slog.Handler                  { return f }
